@@ -1,5 +1,53 @@
 import Ecal.Drivers.Util
+import Ecal.Model.Conc
+/-!
+Driver of C13. Payload (space separated `key=value`):
+  `g=<goroutines> n=<programs> r=<rounds> prov=<0|1> mode=<…> seed=<n>`
+The model side instantiates `Ecal.Conc.parserSys true` (the parser as it is: a
+per-parse block-start counter, the grammar table never written) with `g` threads
+whose operation lists and whose interleaving are derived from the seed, runs the
+interleaving, and counts the threads whose result differs from the result of
+the same thread running alone. Result: that count (theorem `parse_reentrant`: 0).
+-/
 namespace Ecal.Drv.C13
-/-- model driver of property C13 (stub: not implemented yet) -/
-def run (_args : List String) : IO Unit := Ecal.Drv.lineLoop fun _ => "unimplemented"
+open Ecal.Drv Ecal.Conc
+
+def field (fs : List String) (k : String) : Nat :=
+  match fs.find? (·.startsWith (k ++ "=")) with
+  | some s => ((s.drop (k.length + 1)).toString.toNat?).getD 0
+  | none => 0
+
+def lcg (x : Nat) : Nat := (x * 6364136223846793005 + 1442695040888963407) % 18446744073709551616
+
+/-- a well-bracketed operation list of a "program" -/
+def progOf : Nat → Nat → Nat → List POp
+  | 0, _, depth => List.replicate depth POp.guardEnd
+  | fuel + 1, x, depth =>
+    let x := lcg x
+    match (x / 65536) % 5 with
+    | 0 => POp.guardBegin :: progOf fuel x (depth + 1)
+    | 1 => if depth > 0 then POp.guardEnd :: progOf fuel x (depth - 1) else POp.brace :: progOf fuel x depth
+    | 2 => POp.brace :: progOf fuel x depth
+    | 3 => POp.brace :: progOf fuel x depth
+    | _ => POp.other :: progOf fuel x depth
+
+def schedOf : Nat → Nat → Nat → List Nat
+  | 0, _, _ => []
+  | fuel + 1, x, g => let x := lcg x; ((x / 65536) % g) :: schedOf fuel x g
+
+def runCase (payload : String) : String :=
+  let fs := payload.splitOn " "
+  let g := field fs "g"
+  let seed := field fs "seed"
+  if g = 0 then "bad-payload" else
+  let init : State String Brace PLoc :=
+    ⟨fun _ => Brace.mapLit, fun t => { prog := progOf 12 (seed + 7919 * t) 0 }⟩
+  -- every thread gets enough steps to finish: a random interleaving followed by a round-robin tail
+  let sched := schedOf (g * 16) seed g ++ (List.range (g * 30)).map (· % g)
+  let fin := run (parserSys true) init sched
+  let mism := (List.range g).filter fun t =>
+    decide ((fin.locals t).out ≠ (alone (parserSys true) t (sched.count t) init.shared (init.locals t)).2.out)
+  toString mism.length ++ (if g ≥ 2 ∧ field fs "n" ≥ 10 then "\tnt=1" else "")
+
+def run (_args : List String) : IO Unit := lineLoop runCase
 end Ecal.Drv.C13
